@@ -1,4 +1,7 @@
 import Pycoin.Proofs.Der
+import Pycoin.Proofs.SecRt
+import Pycoin.Proofs.CurveFacts.secp256k1
+import Pycoin.Props.C11
 import Pycoin.Model.PyErr
 import Pycoin.Model.Wif
 import Pycoin.Gen.Curves
@@ -16,6 +19,253 @@ theorem C10_network_generator :
     (genB : Int) = Gen.Curves.secp256k1.b ∧ genOrder = Gen.Curves.secp256k1.n ∧
     (genGx : Int) = Gen.Curves.secp256k1.gx ∧ (genGy : Int) = Gen.Curves.secp256k1.gy := by
   decide +kernel
+
+/-! ## the field of the shipped generator -/
+
+/-- the curve every network's keys live on -/
+abbrev k1 : Curve.CurveParams := Gen.Curves.secp256k1
+
+/-- secp256k1 meets the side conditions of the SEC theorems: 32-byte coordinates, `p` odd, `p ≡ 3 (mod 4)` -/
+theorem C10_field_secp256k1 : Sec.Field32 k1 ∧ k1.p % 4 = 3 ∧ k1.n ≤ 2 ^ 256 ∧ 0 < k1.n :=
+  ⟨⟨by decide +kernel, by decide +kernel, by decide +kernel⟩, by decide +kernel, by decide +kernel, by decide +kernel⟩
+
+/-! ## SEC (`pycoin/encoding/sec.py`, `Key.from_sec`, `Key.sec/hash160/address`) -/
+section sec
+open Pycoin.Sec Pycoin.KeyCtor Pycoin.Curve
+
+/-- C10.sec_strict — a blob accepted by `Key.from_sec` is the unique encoding of its point: coordinates in
+`[0, p)`, point on the curve, length and prefix of one of the two forms, and encoding the point again (with the
+compression flag read off the blob) gives the blob back, byte for byte. -/
+theorem C10_sec_strict (c : CurveParams) (hc : Field32 c) (blob : Bytes) (k : Key) (h : keyFromSec c blob = .ok k) :
+    k.se = none ∧ 0 ≤ k.pub.1 ∧ k.pub.1 < c.p ∧ 0 ≤ k.pub.2 ∧ k.pub.2 < c.p ∧
+    containsXY c k.pub.1 k.pub.2 = true ∧ k.compressed = isSecCompressed blob ∧
+    publicPairToSec k.pub.1 k.pub.2 (isSecCompressed blob) = .ok blob ∧
+    ((blob.length = 33 ∧ (blob.take 1 = [2] ∨ blob.take 1 = [3])) ∨ (blob.length = 65 ∧ blob.take 1 = [4])) :=
+  keyFromSec_strict c hc blob k h
+
+/-- two accepted blobs of the same form that give the same point are the same blob (hence one hash160, one address) -/
+theorem C10_sec_unique (c : CurveParams) (hc : Field32 c) (b1 b2 : Bytes) (k1' k2' : Key)
+    (h1 : keyFromSec c b1 = .ok k1') (h2 : keyFromSec c b2 = .ok k2') (hp : k1'.pub = k2'.pub)
+    (hf : isSecCompressed b1 = isSecCompressed b2) : b1 = b2 := by
+  have e1 := (C10_sec_strict c hc b1 k1' h1).2.2.2.2.2.2.2.1
+  have e2 := (C10_sec_strict c hc b2 k2' h2).2.2.2.2.2.2.2.1
+  rw [hp, hf, e2] at e1
+  injection e1 with e1
+  exact e1.symm
+
+/-- C10.sec_strict on the shipped curve -/
+theorem C10_sec_strict_secp256k1 (blob : Bytes) (k : Key) (h : keyFromSec k1 blob = .ok k) :
+    0 ≤ k.pub.1 ∧ k.pub.1 < k1.p ∧ 0 ≤ k.pub.2 ∧ k.pub.2 < k1.p ∧ containsXY k1 k.pub.1 k.pub.2 = true ∧
+    k.sec none = .ok blob := by
+  obtain ⟨-, a, b, c', d, e, f, g, -⟩ := C10_sec_strict k1 C10_field_secp256k1.1 blob k h
+  refine ⟨a, b, c', d, e, ?_⟩
+  unfold Key.sec
+  simp only [Option.getD_none, f]
+  exact g
+
+/-- C10.sec_prefix_rules, strict mode: anything but `04` with 65 bytes or `02`/`03` with 33 bytes is refused with
+`EncodingError` (prefixes 0, 1, 5, 6, 7, wrong lengths, the empty string) -/
+theorem C10_sec_prefix_rules_strict (c : CurveParams) (hc : Field32 c) (sec : Bytes)
+    (h : ¬ ((sec.length = 65 ∧ sec.take 1 = [4]) ∨ (sec.length = 33 ∧ (sec.take 1 = [2] ∨ sec.take 1 = [3])))) :
+    secToPublicPair c sec true = .error .encodingError := by
+  unfold secToPublicPair
+  simp only [hc.bc]
+  by_cases h65 : sec.length = 1 + 32 * 2
+  · rw [if_pos h65]
+    have : ¬ (sec.take 1 = [4]) := fun h4 => h (Or.inl ⟨by omega, h4⟩)
+    simp [this]
+  · rw [if_neg h65]
+    by_cases h33 : sec.length = 1 + 32
+    · rw [if_pos h33]
+      have : ¬ (sec.take 1 = [2] ∨ sec.take 1 = [3]) := fun h23 => h (Or.inr ⟨by omega, h23⟩)
+      simp [this]
+    · rw [if_neg h33]
+
+/-- C10.sec_prefix_rules, non-strict mode, exactly as coded: `EncodingError` unless the blob has 65 bytes, prefix
+`04`/`06`/`07` and both coordinates below `p`, or has 33 bytes (ANY prefix) and `x < p` — in which case the result
+is whatever `points_for_x` gives for the parity "odd unless the prefix is `02`" -/
+theorem C10_sec_prefix_rules_nonstrict (c : CurveParams) (hc : Field32 c) (sec : Bytes) :
+    secToPublicPair c sec false = .error .encodingError ↔
+    ¬ ((sec.length = 65 ∧ (sec.take 1 = [4] ∨ sec.take 1 = [6] ∨ sec.take 1 = [7]) ∧
+          fromBytes32 (slice sec 1 33) < c.p ∧ fromBytes32 (slice sec 33 65) < c.p) ∨
+       (sec.length = 33 ∧ fromBytes32 (slice sec 1 33) < c.p)) := by
+  unfold secToPublicPair
+  simp only [hc.bc, show (1 + 32 : Nat) = 33 from rfl, show (1 + 2 * 32 : Nat) = 65 from rfl,
+    show (1 + 32 * 2 : Nat) = 65 from rfl]
+  by_cases h65 : sec.length = 65
+  · rw [if_pos h65]
+    have h65' : sec.length = 65 := by omega
+    have hn33 : ¬ sec.length = 33 := by omega
+    by_cases hp : sec.take 1 = [4] ∨ sec.take 1 = [6] ∨ sec.take 1 = [7]
+    · have : sec.take 1 = [4] ∨ ¬ (false = true) ∧ (sec.take 1 = [6] ∨ sec.take 1 = [7]) := by
+        rcases hp with h | h | h <;> simp [h]
+      rw [if_pos this]
+      by_cases hr : fromBytes32 (slice sec 1 33) ≥ c.p ∨ fromBytes32 (slice sec 33 65) ≥ c.p
+      · rw [if_pos hr]
+        simp only [true_iff]
+        intro hh
+        rcases hh with ⟨-, -, ha, hb⟩ | ⟨h33, -⟩
+        · rcases hr with hr | hr <;> omega
+        · exact hn33 h33
+      · rw [if_neg hr]
+        constructor
+        · intro h; cases h
+        · intro hh
+          exfalso; apply hh
+          left
+          exact ⟨h65', hp, by omega, by omega⟩
+    · have : ¬ (sec.take 1 = [4] ∨ ¬ (false = true) ∧ (sec.take 1 = [6] ∨ sec.take 1 = [7])) := by
+        intro h
+        rcases h with h | ⟨-, h | h⟩
+        · exact hp (Or.inl h)
+        · exact hp (Or.inr (Or.inl h))
+        · exact hp (Or.inr (Or.inr h))
+      rw [if_neg this]
+      simp only [true_iff]
+      intro hh
+      rcases hh with ⟨-, hq, -, -⟩ | ⟨h33, -⟩
+      · exact hp hq
+      · exact hn33 h33
+  · rw [if_neg h65]
+    have hn65 : ¬ sec.length = 65 := by omega
+    by_cases h33 : sec.length = 33
+    · rw [if_pos h33]
+      have h33' : sec.length = 33 := by omega
+      have : ¬ (false = true) ∨ sec.take 1 = [2] ∨ sec.take 1 = [3] := Or.inl (by decide)
+      rw [if_pos this]
+      by_cases hr : fromBytes32 (slice sec 1 33) ≥ c.p
+      · rw [if_pos hr]
+        simp only [true_iff]
+        intro hh
+        rcases hh with ⟨h, -⟩ | ⟨-, hb⟩
+        · exact hn65 h
+        · omega
+      · rw [if_neg hr]
+        constructor
+        · intro h
+          split at h
+          · cases h
+          · split at h <;> cases h
+        · intro hh
+          exfalso; apply hh
+          right
+          exact ⟨h33', by omega⟩
+    · rw [if_neg h33]
+      simp only [true_iff]
+      intro hh
+      rcases hh with ⟨h, -⟩ | ⟨h, -⟩
+      · exact hn65 h
+      · omega
+
+/-- C10.sec_rt, uncompressed form: `04 ‖ x ‖ y` of a reduced curve point decodes (both modes) to the point, and
+`Key.from_sec` gives a key with the same point, the uncompressed flag, the same blob, hash160 and address -/
+theorem C10_sec_rt_uncompressed (c : CurveParams) (hc : Field32 c) (net : Addr.Network) (k : Key)
+    (hx0 : 0 ≤ k.pub.1) (hx : k.pub.1 < c.p) (hy0 : 0 ≤ k.pub.2) (hy : k.pub.2 < c.p)
+    (hon : containsXY c k.pub.1 k.pub.2 = true) :
+    ∃ blob k', k.sec (some false) = .ok blob ∧
+      secToPublicPair c blob true = .ok k.pub ∧ secToPublicPair c blob false = .ok k.pub ∧
+      keyFromSec c blob = .ok k' ∧ k'.pub = k.pub ∧ k'.compressed = false ∧ k'.se = none ∧
+      k'.sec none = .ok blob ∧ k'.hash160 none = k.hash160 (some false) ∧
+      Key.address net k' none = Key.address net k (some false) := by
+  obtain ⟨blob, henc, -, -, hcomp, hdec⟩ := secToPublicPair_uncompressed c hc k.pub.1 k.pub.2 hx0 hx hy0 hy true
+  obtain ⟨blob', henc', -, -, -, hdec'⟩ := secToPublicPair_uncompressed c hc k.pub.1 k.pub.2 hx0 hx hy0 hy false
+  rw [henc] at henc'; injection henc' with e; subst e
+  refine ⟨blob, ⟨none, k.pub, false⟩, ?_, hdec, hdec', ?_, rfl, rfl, rfl, ?_, ?_, ?_⟩
+  · simpa [Key.sec] using henc
+  · unfold keyFromSec
+    rw [hdec]
+    simp [keyFromPair, hon, hcomp]
+  · simpa [Key.sec] using henc
+  · simp [Key.hash160, Key.sec]
+  · simp [Key.address, Key.hash160, Key.sec]
+
+/-- C10.sec_rt, compressed form: `(02|03) ‖ x` of a reduced curve point with `y ≠ 0` decodes (both modes) to the
+point, and `Key.from_sec` gives a key with the same point, the compressed flag, the same blob, hash160 and
+address.  (`y = 0` would be a point of order two; `C10_sec_rt_secp256k1` shows secp256k1 has none.) -/
+theorem C10_sec_rt_compressed (c : CurveParams) [Good c] (hc : Field32 c) (h4 : c.p % 4 = 3) (net : Addr.Network)
+    (k : Key) (hx0 : 0 ≤ k.pub.1) (hx : k.pub.1 < c.p) (hy0 : 0 < k.pub.2) (hy : k.pub.2 < c.p)
+    (hon : containsXY c k.pub.1 k.pub.2 = true) :
+    ∃ blob k', k.sec (some true) = .ok blob ∧
+      secToPublicPair c blob true = .ok k.pub ∧ secToPublicPair c blob false = .ok k.pub ∧
+      keyFromSec c blob = .ok k' ∧ k'.pub = k.pub ∧ k'.compressed = true ∧ k'.se = none ∧
+      k'.sec none = .ok blob ∧ k'.hash160 none = k.hash160 (some true) ∧
+      Key.address net k' none = Key.address net k (some true) := by
+  obtain ⟨blob, henc, -, -, hcomp, hdec⟩ := secToPublicPair_compressed c hc h4 k.pub.1 k.pub.2 hx0 hx hy0 hy hon true
+  obtain ⟨blob', henc', -, -, -, hdec'⟩ := secToPublicPair_compressed c hc h4 k.pub.1 k.pub.2 hx0 hx hy0 hy hon false
+  rw [henc] at henc'; injection henc' with e; subst e
+  refine ⟨blob, ⟨none, k.pub, true⟩, ?_, hdec, hdec', ?_, rfl, rfl, rfl, ?_, ?_, ?_⟩
+  · simpa [Key.sec] using henc
+  · unfold keyFromSec
+    rw [hdec]
+    simp [keyFromPair, hon, hcomp]
+  · simpa [Key.sec] using henc
+  · simp [Key.hash160, Key.sec]
+  · simp [Key.address, Key.hash160, Key.sec]
+
+end sec
+
+/-! ## `Key.__init__` -/
+section ctor
+open Pycoin.Sec Pycoin.KeyCtor Pycoin.Curve
+
+/-- C10.key_ctor_range — a secret exponent outside `[1, n−1]` is refused with `InvalidSecretExponentError`,
+before anything is computed -/
+theorem C10_key_ctor_range (c : CurveParams) (mul : Int → Except Curve.Err Pt) (d : Int) (comp : Bool)
+    (h : d < 1 ∨ d ≥ c.n) : keyFromSecretWith c mul d comp = .error .invalidSecretExponent := by
+  unfold keyFromSecretWith
+  rw [if_pos h]
+
+/-- the named boundary exponents on secp256k1: `0`, `n`, `n + 1`, `2²⁵⁶ − 1`, `−1` -/
+theorem C10_key_ctor_range_secp256k1 (bf : Int) (comp : Bool) :
+    keyFromSecret k1 bf 0 comp = .error .invalidSecretExponent ∧
+    keyFromSecret k1 bf k1.n comp = .error .invalidSecretExponent ∧
+    keyFromSecret k1 bf (k1.n + 1) comp = .error .invalidSecretExponent ∧
+    keyFromSecret k1 bf (2 ^ 256 - 1) comp = .error .invalidSecretExponent ∧
+    keyFromSecret k1 bf (-1) comp = .error .invalidSecretExponent := by
+  refine ⟨?_, ?_, ?_, ?_, ?_⟩ <;> (apply C10_key_ctor_range; decide +kernel)
+
+/-- an off-curve pair, and the pair `(None, None)`, are refused with `InvalidPublicPairError` -/
+theorem C10_key_ctor_offcurve (c : CurveParams) (comp : Bool) :
+    (∀ x y : Int, containsXY c x y = false → keyFromPair c (some (x, y)) comp = .error .invalidPublicPair) ∧
+    keyFromPair c none comp = .error .invalidPublicPair := by
+  refine ⟨?_, rfl⟩
+  intro x y h
+  simp [keyFromPair, h]
+
+/-- what a constructed key satisfies: exponent in `[1, n−1]`, public pair on the curve; the only errors the two
+checks raise are the documented ones -/
+theorem C10_key_ctor_sound (c : CurveParams) (mul : Int → Except Curve.Err Pt) (d : Int) (comp : Bool) (k : Key) :
+    (keyFromSecretWith c mul d comp = .ok k →
+      1 ≤ d ∧ d < c.n ∧ k.se = some d ∧ k.compressed = comp ∧ mul d = .ok (some k.pub) ∧
+      containsXY c k.pub.1 k.pub.2 = true) ∧
+    (∀ P, keyFromPair c P comp = .ok k → P = some k.pub ∧ k.se = none ∧ containsXY c k.pub.1 k.pub.2 = true) := by
+  constructor
+  · intro h
+    unfold keyFromSecretWith at h
+    split at h
+    · cases h
+    · rename_i hr
+      split at h
+      · cases h
+      · cases h
+      · rename_i x y hm
+        split at h
+        · rename_i hon
+          injection h with h; subst h
+          exact ⟨by omega, by omega, rfl, rfl, hm, hon⟩
+        · cases h
+  · intro P h
+    unfold keyFromPair at h
+    split at h
+    · cases h
+    · rename_i x y
+      split at h
+      · rename_i hon
+        injection h with h; subst h
+        exact ⟨rfl, rfl, hon⟩
+      · cases h
+
+end ctor
 
 /-! ## DER (`pycoin/satoshi/der.py`) -/
 section der
